@@ -295,8 +295,8 @@ func c14Once(c *mon.Ctx) {
 func init() {
 	var nSeeds int
 	mon.Register(&mon.Check{
-		ID:   "C14",
-		Rule: "evaluations = result sets (real ones from linting corpus + hostile mutants + positional family members, and synthetic ones covering all eight statuses with adversarial details) sent through json.Marshal / json.Unmarshal and compared key by key (status, details against a byte-wise UTF-8 reference, flags, version), plus label-table checks (8 labels, seeded non-labels must be rejected) and WriteJSON listings of the global and seeded filtered registries decoded line by line. distinct_nontrivial = result sets whose details contained invalid UTF-8 or characters JSON must escape, plus distinct rejected non-labels.",
+		ID:          "C14",
+		Rule:        "evaluations = result sets (real ones from linting corpus + hostile mutants + positional family members, and synthetic ones covering all eight statuses with adversarial details) sent through json.Marshal / json.Unmarshal and compared key by key (status, details against a byte-wise UTF-8 reference, flags, version), plus label-table checks (8 labels, seeded non-labels must be rejected) and WriteJSON listings of the global and seeded filtered registries decoded line by line. distinct_nontrivial = result sets whose details contained invalid UTF-8 or characters JSON must escape, plus distinct rejected non-labels.",
 		Assumptions: []string{"JSON null for a status and \\u-escaped spellings of a label are not judged (the property speaks of labels)"},
 		Setup: func(c *mon.Ctx) error {
 			if err := setupCommon(c); err != nil {
